@@ -2,6 +2,7 @@
   C06 — Sets behave like mathematical sets (the `ds/set` model against membership semantics).
 -/
 import Nuts.Model.Tx
+import NutsProofs.Lemmas.Isolation
 namespace NutsProofs.C06
 open Nuts Nuts.Model Nuts.Model.SetDS
 
@@ -93,5 +94,139 @@ theorem spop_spec (s : St) (k : Bytes) (m : List Bytes) (x : Bytes) (hk : get? s
 it to the destination. -/
 theorem C06_witness_smove_nonmember :
     (smove [([1], [[7]]), ([2], [[8]])] [1] [2] [9]).1 = [([1], [[7]]), ([2], [[8], [9]])] := by decide
+
+/-! ### sets through transactions: every history -/
+
+open Nuts.Model.DB
+
+/-- the members a set key holds (a missing key holds none) -/
+def membersOf (m : St) (k : Bytes) : List Bytes := (get? m k).getD []
+
+/-- what one committed set record does to the members of its key: `SAdd` inserts the member unless it is
+there, `SRem` / `SPop` take it out (the empty member cannot be removed: finding D-SREM-EMPTY) -/
+def setStep (mem : List Bytes) (r : Rec) : List Bytes :=
+  if r.flag == flagSet then SetDS.insert mem r.value
+  else if r.flag == flagDelete then (if r.value.isEmpty then mem else mem.filter fun y => y ≠ r.value)
+  else mem
+
+theorem applySet_members (m : St) (r : Rec) (k : Bytes) :
+    membersOf (applySet m r).1 k = if r.key = k then setStep (membersOf m k) r else membersOf m k := by
+  unfold applySet setStep membersOf
+  by_cases hd : (r.flag == flagDelete) = true
+  · have hs : (r.flag == flagSet) = false := by
+      have : r.flag = flagDelete := by simpa using hd
+      rw [this]; decide
+    simp only [hd, hs, if_true, Bool.false_eq_true, if_false]
+    unfold SetDS.srem
+    cases hg : get? m r.key with
+    | none =>
+      simp only
+      by_cases hk : r.key = k
+      · subst hk; simp [hg]
+      · simp [hk]
+    | some mem =>
+      simp only
+      by_cases he : r.value.isEmpty = true
+      · simp only [he, if_true]
+        by_cases hk : r.key = k
+        · subst hk; simp [hg]
+        · simp [hk]
+      · simp only [he, Bool.false_eq_true, if_false]
+        by_cases hk : r.key = k
+        · subst hk
+          rw [get_put_self, hg]
+          simp only [if_true, Option.getD_some]
+          apply List.filter_congr
+          intro y _
+          by_cases hy : y = r.value <;> simp [hy]
+        · rw [get_put_other _ _ _ _ (fun e => hk e.symm)]
+          simp [hk]
+  · simp only [hd, Bool.false_eq_true, if_false]
+    by_cases hs : (r.flag == flagSet) = true
+    · simp only [hs, if_true]
+      unfold SetDS.sadd
+      by_cases hk : r.key = k
+      · subst hk
+        rw [get_put_self]
+        simp [List.foldl]
+      · rw [get_put_other _ _ _ _ (fun e => hk e.symm)]
+        simp [hk]
+    · simp only [hs, Bool.false_eq_true, if_false]
+      split <;> rfl
+
+open NutsProofs.ReopenAll NutsProofs.Isolation in
+/-- the set structure of one bucket after a log: per key, the fold of `setStep` over the bucket's set records
+with that key, in log order -/
+theorem foldSV_sets (rs : List Rec) (v : SV) (b k : Bytes) (c : Bool) (hb : ∀ r ∈ rs, r.bucket = b) :
+    membersOf ((aget? (foldSV v rs c).sets b).getD []) k =
+      (rs.filter fun r => r.ds == dsSet && r.key == k).foldl setStep (membersOf ((aget? v.sets b).getD []) k) := by
+  induction rs generalizing v with
+  | nil => rfl
+  | cons r rest ih =>
+    have hrb : r.bucket = b := hb r (List.mem_cons_self ..)
+    simp only [foldSV, List.foldl_cons]
+    have := ih (stepSV v r c).1 (fun x hx => hb x (List.mem_cons_of_mem _ hx))
+    simp only [foldSV] at this
+    rw [this]
+    by_cases hds : (r.ds == dsSet) = true
+    · have hstep : (aget? (stepSV v r c).1.sets b).getD [] = (applySet ((aget? v.sets b).getD []) r).1 := by
+        simp only [stepSV, hds, if_true, hrb, aget_aput_self, Option.getD_some]
+      rw [hstep, applySet_members]
+      by_cases hk : r.key = k
+      · subst hk
+        have hf : (r.ds == dsSet && r.key == r.key) = true := by simp [hds]
+        rw [if_pos rfl, List.filter_cons, if_pos hf, List.foldl_cons]
+      · have hf : (r.ds == dsSet && r.key == k) = false := by simp [hk]
+        rw [if_neg hk, List.filter_cons, hf]
+        simp only [Bool.false_eq_true, if_false]
+    · have hf : (r.ds == dsSet && r.key == k) = false := by simp [hds]
+      simp only [List.filter_cons, hf, Bool.false_eq_true, if_false]
+      have hsets : (stepSV v r c).1.sets = v.sets := by
+        simp only [stepSV, hds, Bool.false_eq_true, if_false]
+        split
+        · rfl
+        · split <;> rfl
+      rw [hsets]
+
+open NutsProofs.Reopen NutsProofs.ReopenAll NutsProofs.Isolation in
+/-- **C06, sets through transactions, every history.** After any history of successfully committed
+transactions over all four structures, with reopens (key+value mode), the members of set `k` of bucket `b` are
+what the committed `SAdd` / `SRem` / `SPop` records of that bucket and key produce, applied in commit order to
+the empty set: insertion unless present, removal — whatever other buckets, keys and structures did in between.
+(`SMove*` write no record: finding D-SMOVE.) -/
+theorem C06_sets_after_every_history (opt0 : Opts) (ops : List OpA) (hok : OpsOkA (openDB opt0 []).1 ops) (b k : Bytes) :
+    let s := ops.foldl stepA (openDB opt0 []).1
+    membersOf ((aget? s.sets b).getD []) k =
+      (((allRecs s.files).map (·.1)).filter fun r => r.bucket == b && (r.ds == dsSet && r.key == k)).foldl setStep [] := by
+  intro s
+  have hinv : AllInv s := allInv_ops ops _ (allInv_init opt0) hok
+  have hsv : (sv s).sets = s.sets := rfl
+  have hproj := foldSV_project ((allRecs s.files).map (·.1)) emptySV emptySV b false rfl
+  have hsets : aget? s.sets b = aget? (foldSV emptySV (((allRecs s.files).map (·.1)).filter fun r => r.bucket == b) false).sets b := by
+    have := congrArg (·.2.1) hproj
+    simp only [viewSV] at this
+    rw [← hsv, hinv.structs]; exact this
+  rw [hsets, foldSV_sets _ emptySV b k false (by
+    intro r hr
+    have := (List.mem_filter.mp hr).2
+    simpa using this)]
+  simp only [List.filter_filter]
+  have e0 : membersOf ((aget? emptySV.sets b).getD []) k = [] := rfl
+  rw [e0]
+  congr 1
+  apply List.filter_congr
+  intro x _
+  exact Bool.and_comm _ _
+
+/-- … and those members never contain a duplicate -/
+theorem setStep_nodup (mem : List Bytes) (r : Rec) (h : mem.Nodup) : (setStep mem r).Nodup := by
+  unfold setStep
+  split
+  · exact nodup_insert mem r.value h
+  · split
+    · split
+      · exact h
+      · exact List.Nodup.sublist List.filter_sublist h
+    · exact h
 
 end NutsProofs.C06
